@@ -71,6 +71,12 @@ class Impl:
     # --- canonical strings (same syntax as the driver) ---
     def canon_val(self, o):
         k = KIND_OF_CLASS.get(type(o).__name__)
+        if k is None:
+            # a format class this harness has no reading for: name it and show its wire observable
+            try:
+                return "x:%s:%s" % (type(o).__name__, hx(o.encode()))
+            except Exception as e:
+                return "x:%s:encode-raises-%s" % (type(o).__name__, type(e).__name__)
         if k == "s":
             return "s:" + hx(o.value.encode("utf-8"))
         if k == "o":
@@ -82,7 +88,7 @@ class Impl:
         if k == "b":
             v = o.value
             return "b:%d/%d/%d" % (v.block_number, 1 if v.more else 0, v.size_exponent)
-        return "?:" + type(o).__name__
+        raise HarnessError("unreachable kind %r" % k)
 
     def canon_msg(self, m):
         parts = [str(int(m.mtype)), str(int(m.code)), str(int(m.mid)), hx(m.token), hx(m.payload)]
@@ -112,6 +118,10 @@ class Impl:
                 v = bytes.fromhex(val)
             elif kind == "b":
                 v = (val[0], bool(val[1]), val[2])
+            elif kind == "x":
+                # unknown format class: the only way in that needs no knowledge of its value type is the wire side
+                m.opt.add_option(self.OptionNumber(num).create_option(decode=bytes.fromhex(val)))
+                continue
             else:
                 v = val
             m.opt.add_option(self.OptionNumber(num).create_option(value=v))
@@ -136,7 +146,17 @@ class Impl:
         return self.encode_msg(c)
 
     def kind_of(self, num):
-        return KIND_OF_CLASS[self.OptionNumber(num).format.__name__]
+        """value kind of the format class registered for `num`; "x" = a class this harness does not know (handled
+        generically: value given as wire bytes, judged by decode/encode observables, never compared with the model)"""
+        return KIND_OF_CLASS.get(self.fmt_class_name(num), "x")
+
+    def fmt_class_name(self, num):
+        f = self.OptionNumber(num).format
+        return getattr(f, "__name__", None) or type(f).__name__
+
+    def fmt_name(self, num):
+        n = self.fmt_class_name(num)
+        return FMT_NAME.get(n, "?:" + n)
 
     # --- the real receive paths, no sockets ---
     def transports(self):
@@ -260,7 +280,7 @@ class Impl:
 
 def opt_matches(raw, o):
     """does the parsed option object `o` carry the value the RFC bytes `raw` denote?"""
-    v = o.value
+    v = getattr(o, "value", None)
     if isinstance(v, str):
         try:
             return v.encode("utf-8") == raw
@@ -271,9 +291,14 @@ def opt_matches(raw, o):
     if isinstance(v, tuple) and hasattr(v, "block_number"):
         n = int.from_bytes(raw, "big")
         return (v.block_number, bool(v.more), v.size_exponent) == (n >> 4, bool(n & 8), n & 7)
-    if isinstance(v, int):
+    if isinstance(v, int) and not isinstance(v, bool):
         return int(v) == int.from_bytes(raw, "big")
-    return False
+    # a value type this harness has no reading for (an option format class it does not know): judge by the wire
+    # observable -- the option was handed `raw` by the parser, its serialisation must give `raw` back
+    try:
+        return bytes(o.encode()) == raw
+    except Exception:
+        return False
 
 
 def fields_match(f, m):
@@ -340,7 +365,7 @@ def spec_wellformed(spec, kind_of):
         if num - prev > MAX_EXT or kind != kind_of(num):
             return False
         prev = num
-        if kind in "so":
+        if kind in "sox":
             n = len(val) // 2
         elif kind == "b":
             if not (0 <= val[2] <= 7 and val[0] >= 0):
@@ -359,7 +384,7 @@ def spec_fields(spec):
     """the RFC-level fields of a structured message (options stably sorted, values as canonical bytes)"""
     opts = []
     for num, kind, val in sorted(spec["opts"], key=lambda o: o[0]):
-        if kind in "so":
+        if kind in "sox":
             raw = bytes.fromhex(val)
         elif kind == "b":
             n = (val[0] << 4) | (8 if val[1] else 0) | val[2]
@@ -406,7 +431,7 @@ def enc_line(spec):
     parts = ["C01 enc", str(spec["t"]), str(spec["c"]), str(spec["i"]),
              spec["tok"] or "-", spec["pl"] or "-"]
     for num, kind, val in spec["opts"]:
-        if kind in "so":
+        if kind in "sox":
             parts.append("%d:%s:%s" % (num, kind, val or "-"))
         elif kind == "b":
             parts.append("%d:b:%d/%d/%d" % (num, val[0], 1 if val[1] else 0, val[2]))
@@ -448,7 +473,7 @@ def rand_value(rng, kind, big=False):
         if big:
             b = b + b"x" * rng.choice([13, 255, 256, 269, 270, 300])
         return b.hex()
-    if kind == "o":
+    if kind in "ox":
         n = rng.choice([0, 0, 1, 2, 4, 8, 12, 13, 20]) if not big else rng.choice([268, 269, 270, 1000])
         return bytes(rng.getrandbits(8) for _ in range(n)).hex()
     if kind == "b":
@@ -499,6 +524,22 @@ def rand_spec(impl, rng):
               tok=bytes(rng.getrandbits(8) for _ in range(rng.randrange(9))), pl=pl, opts=opts)
 
 
+def zero_value(kind):
+    return 0 if kind in "uc" else ([0, False, 0] if kind == "b" else "")
+
+
+def as_kind(impl, num, kind, val):
+    """[num, kind, val] as the boundary table lays it out for the format RFC 7252 gives `num` -- unless the tree
+    under test registers a format class for `num` that this harness does not know: then the same value as its RFC
+    bytes, kind "x" (built through the class's own decode())"""
+    if impl.kind_of(num) != "x":
+        return [num, kind, val]
+    if kind in "so":
+        return [num, "x", val]
+    n = ((val[0] << 4) | (8 if val[1] else 0) | val[2]) if kind == "b" else val
+    return [num, "x", n.to_bytes((n.bit_length() + 7) // 8, "big").hex()]
+
+
 def boundary_specs(impl):
     """structured messages at every threshold of the model"""
     out = []
@@ -506,23 +547,23 @@ def boundary_specs(impl):
         for base in (0, 1, 11, 60, 65804):
             # delta b from `base`
             k0, k1 = impl.kind_of(base), impl.kind_of(base + b)
-            first = [[base, k0, 0 if k0 in "uc" else ([0, False, 0] if k0 == "b" else "")]] if base else []
-            second = [base + b, k1, 0 if k1 in "uc" else ([0, False, 0] if k1 == "b" else "")]
+            first = [[base, k0, zero_value(k0)]] if base else []
+            second = [base + b, k1, zero_value(k1)]
             out.append(mk(opts=first + [second]))
             out.append(mk(opts=[second] + first, pl=b"p"))          # added in reverse order
         # two consecutive deltas of b
-        out.append(mk(opts=[[b, impl.kind_of(b), "" if impl.kind_of(b) in "so" else 0],
-                            [2 * b, impl.kind_of(2 * b), "" if impl.kind_of(2 * b) in "so" else 0]]))
+        out.append(mk(opts=[[b, impl.kind_of(b), zero_value(impl.kind_of(b))],
+                            [2 * b, impl.kind_of(2 * b), zero_value(impl.kind_of(2 * b))]]))
         # value length b: opaque (ETag 4, unknown 2049) and string (Uri-Path 11)
-        out.append(mk(opts=[[4, "o", (b"\xa5" * b).hex()]]))
-        out.append(mk(opts=[[11, "s", (b"a" * b).hex()]], pl=b"\x00"))
-        out.append(mk(opts=[[2049, "o", (b"\x00" * b).hex()], [2049, "o", ""]]))
+        out.append(mk(opts=[as_kind(impl, 4, "o", (b"\xa5" * b).hex())]))
+        out.append(mk(opts=[as_kind(impl, 11, "s", (b"a" * b).hex())], pl=b"\x00"))
+        out.append(mk(opts=[as_kind(impl, 2049, "o", (b"\x00" * b).hex()), as_kind(impl, 2049, "o", "")]))
         if b <= 269:
             # uint of exactly b bytes
-            out.append(mk(opts=[[7, "u", 1 << (8 * b - 1)], [60, "u", (1 << (8 * b)) - 1]]))
-            out.append(mk(opts=[[12, "c", 1 << (8 * b - 8)]]))
+            out.append(mk(opts=[as_kind(impl, 7, "u", 1 << (8 * b - 1)), as_kind(impl, 60, "u", (1 << (8 * b)) - 1)]))
+            out.append(mk(opts=[as_kind(impl, 12, "c", 1 << (8 * b - 8))]))
     for n in range(0, 18):                                           # token lengths incl. >8, >15
-        out.append(mk(tok=bytes(range(1, n + 1)), opts=[[11, "s", "61"]]))
+        out.append(mk(tok=bytes(range(1, n + 1)), opts=[as_kind(impl, 11, "s", "61")]))
         out.append(mk(tok=bytes(range(1, n + 1))))
     for t in range(4):
         for c in (0, 1, 69, 255, 256):
@@ -531,15 +572,40 @@ def boundary_specs(impl):
     for szx in range(8):
         for more in (False, True):
             for num in (0, 1, 15, 16, 1 << 20):
-                out.append(mk(opts=[[23, "b", [num, more, szx]], [27, "b", [num, not more, szx]]]))
+                out.append(mk(opts=[as_kind(impl, 23, "b", [num, more, szx]), as_kind(impl, 27, "b", [num, not more, szx])]))
     for pl in (b"", b"\xff", b"\xff\xff", b"\x00", b"a" * 300):
         out.append(mk(pl=pl))
-        out.append(mk(pl=pl, opts=[[4, "o", "ff"]]))
+        out.append(mk(pl=pl, opts=[as_kind(impl, 4, "o", "ff")]))
     # every named option once, in reverse order, and each repeated
     named = impl.named
-    vals = {"s": "c3a9", "o": "00ff", "u": 258, "c": 50, "b": [3, True, 2]}
+    vals = {"s": "c3a9", "o": "00ff", "u": 258, "c": 50, "b": [3, True, 2], "x": "00ff"}
     out.append(mk(opts=[[n, impl.kind_of(n), vals[impl.kind_of(n)]] for n in reversed(named)]))
     out.append(mk(opts=[[n, impl.kind_of(n), vals[impl.kind_of(n)]] for n in named for _ in (0, 1)]))
+    return out
+
+
+VALUE_LENGTHS = [0, 1, 2, 3, 4, 5, 8, 9, 12, 13, 14]
+
+
+def option_value_grid(named):
+    """every option number the tree under test has a name for (plus neighbours without one, 0, and numbers in the
+    extended-delta ranges) x value lengths 0..5, 8, 9 and the extended-length boundary x two fillings (ASCII: legal
+    for every format incl. string; bytes with leading zero / high bits: not UTF-8, non-minimal for integers) --
+    laid out by the oracle's serialiser, regardless of the length range RFC 7252 5.10 gives the option: a length
+    outside that range is not a message format error (5.4.3), the value bytes are still the option's value.
+    Alone, and behind another option (non-zero base for the delta) with a payload after it."""
+    nums = sorted(set(named) | {0, 2, 10, 16, 18, 22, 24, 29, 31, 61, 268, 269, 2049, 65000, 65535, 65536})
+    out = []
+    for num in nums:
+        for ln in VALUE_LENGTHS:
+            for fill in (bytes((0x61 + k) % 0x7F for k in range(ln)),
+                         bytes([0x00, 0xFF, 0x80, 0x07] * 4)[:ln]):
+                if ln == 0 and fill != b"":
+                    continue
+                out.append(rfc.build(rfc.Fields(0, 1, 0x1234, b"", [(num, fill)], b"")))
+                if ln in (0, 1, 4, 13):
+                    out.append(rfc.build(rfc.Fields(1, 2, 7, b"\x05", [(1, b"e"), (num, fill), (num, fill)] if num
+                                                    else [(num, fill), (1, b"e")], b"\xffpl")))
     return out
 
 
@@ -707,7 +773,7 @@ def run_dec(env, rep, impl, datas, tag, malformed=False, transports=True):
             rep.count("malformed-stream")
         if m is not None:
             for o in m.opt.option_list():
-                rep.count("dec:value-kind=" + KIND_OF_CLASS.get(type(o).__name__, "?"))
+                rep.count("dec:value-kind=" + KIND_OF_CLASS.get(type(o).__name__, "x"))
         v, key = oracle_decode(impl, data, out, m)
         if v:
             rep.oracle_fail(case, v, key=key)
@@ -824,7 +890,7 @@ def run_small(env, rep, impl):
             add({"kind": "ext-r", "nib": nib, "hex": raw.hex()}, "C01 ext r %d %s" % (nib, hx(raw)), out)
             rep.count("ext-r:" + ("err" if out == "err" else "ok"))
     for n in sorted(set(range(0, 2101)) | set(impl.named) | {65535, 65536, 65804, 100000, 200000}):
-        add({"kind": "fmt", "n": n}, "C01 fmt %d" % n, FMT_NAME.get(impl.OptionNumber(n).format.__name__, "?"),
+        add({"kind": "fmt", "n": n}, "C01 fmt %d" % n, impl.fmt_name(n),
             nontrivial=n in impl.named)
         rep.count("fmt:" + outs[-1])
     compare(env, rep, cases, lines, outs, what="ext/fmt")
@@ -889,6 +955,9 @@ def _run(env, rep, impl):
     run_dec(env, rep, impl, bw, "boundary-wire")
     bd = boundary_datagrams()
     run_dec(env, rep, impl, bd, "boundary-bytes")
+    run_dec(env, rep, impl, option_value_grid(impl.named), "option-value-grid")
+    rep.exhaustive_parts.append("every named option number x value lengths %s x 2 fillings as received bytes"
+                                % VALUE_LENGTHS)
     rep.exhaustive_parts.append("boundary table: deltas/lengths %s, 256 nibble pairs, TKL 0..15" % BOUNDS)
 
     # random structured messages
